@@ -14,7 +14,7 @@ sub = rest[0] if rest else ""
 os.environ.setdefault("VERIF_KEEP", "")
 I = harness.load()
 mod = importlib.import_module("mirsym." + modname)
-for sc in getattr(mod, fn)():
+for sc in (getattr(mod, fn)(os.environ["MIRSYM_TIER"]) if os.environ.get("MIRSYM_TIER") else getattr(mod, fn)()):
     if os.environ.get("MIRSYM_BUDGET"):
         sc.time_budget = int(os.environ["MIRSYM_BUDGET"])
     if sub and sub not in sc.name:
